@@ -19,6 +19,9 @@ type Cell struct {
 	sh    *Shape
 	alloc *ssa.Alloc
 	id    int
+	// ghost cells exist on every path: where no value was recorded they hold
+	// their initial value
+	ghostInit *Val
 }
 
 type State struct {
@@ -85,6 +88,30 @@ type FnCtx struct {
 	sfInst       map[string]bool
 	panicking    *Val
 	notes        map[string]bool
+	ghost        map[string]*Cell
+}
+
+// ghostCell returns the ghost cell with the given name, creating it (with the
+// given initial value in st) on first use.
+func (fx *FnCtx) ghostCell(st *State, name string, sh *Shape, init Val) *Cell {
+	if fx.ghost == nil {
+		fx.ghost = map[string]*Cell{}
+	}
+	c, ok := fx.ghost[name]
+	if !ok {
+		c = fx.newCell("$"+name, sh, nil)
+		fx.ghost[name] = c
+		iv := init
+		if sh.kind != KInt || init.ts[0] != "0" {
+			// "no call recorded yet": an arbitrary value
+			iv = freshVal(fx.decls, sh, "ghost0")
+		}
+		c.ghostInit = &iv
+	}
+	if _, live := st.cells[c]; !live {
+		st.cells[c] = init
+	}
+	return c
 }
 
 type namedVal struct {
@@ -248,6 +275,9 @@ func (fx *FnCtx) merge(hint string, ins []edgeState) *State {
 		okAll := true
 		for _, e := range live {
 			v, ok := e.st.cells[k]
+			if !ok && k.ghostInit != nil {
+				v, ok = *k.ghostInit, true
+			}
 			if !ok {
 				okAll = false
 				break
